@@ -142,3 +142,16 @@ func init() {
 		Thorough: tierSpec{Harnesses: []harnessSpec{{Func: gp + "internal/zzverif.VC10", Discover: 2, MapPerms: true, Reach: []string{"c10.accepted"}}}},
 	}
 }
+
+func init() {
+	properties["C07"] = &propSpec{ID: "C07",
+		Quick: tierSpec{Harnesses: []harnessSpec{
+			{Func: gp + "internal/zzverif.VC07Invalid", Discover: 1, Reach: []string{"c07i.ran"}},
+			{Func: gp + "internal/zzverif.VC07All", Discover: 1, Reach: []string{"c07a.diagnosed"}},
+		}},
+		Thorough: tierSpec{Harnesses: []harnessSpec{
+			{Func: gp + "internal/zzverif.VC07Invalid", Discover: 1, Reach: []string{"c07i.ran"}},
+			{Func: gp + "internal/zzverif.VC07All", Discover: 1, Reach: []string{"c07a.diagnosed"}},
+		}},
+	}
+}
